@@ -108,6 +108,16 @@ func c09Case(w *rt.W, text string, r date.Rule, allPaths bool) int {
 			var pb *date.ParseError[nB]
 			judge("DefaultParser[named []byte]", g, err, errors.As(err, &pb) || dateTyped(err))
 		}
+		{
+			g, err := date.Parser([]byte(text), r)
+			judge("Parser variable", g, err, dateTyped(err))
+			rec := append(append(make([]byte, 0, len(text)+16), text...), "|2021-01-01"...)
+			g, err = date.DefaultParser(rec[:len(text)], r)
+			judge("DefaultParser[[]byte] on a sub-slice", g, err, dateTyped(err))
+			if string(rec[len(text):]) != "|2021-01-01" {
+				c09Fail(w, "parser-wrote-behind-input", text, r, "DefaultParser[[]byte] on a sub-slice", string(rec), text+"|2021-01-01")
+			}
+		}
 		if r == 0 {
 			var u date.Date
 			err := u.UnmarshalText([]byte(text))
@@ -151,7 +161,9 @@ func runC09(c *rt.Ctx) {
 	configs := []struct {
 		limit int
 		rule  date.Rule
-	}{{10, 0}, {10, date.RuleDisableBasic}, {0, 0}, {0, date.RuleDisableBasic}, {8, 0}, {8, date.RuleDisableBasic}, {15, 0}, {15, date.RuleDisableBasic}}
+	}{{10, 0}, {10, date.RuleDisableBasic}, {0, 0}, {0, date.RuleDisableBasic}, {8, 0}, {8, date.RuleDisableBasic}, {15, 0}, {15, date.RuleDisableBasic},
+		// the rule is a bit set: undefined extra bits leave the documented bit's meaning alone
+		{10, date.RuleDisableBasic | 2}, {0, ^date.Rule(0)}, {10, 6}, {15, date.RuleDisableBasic | 1<<9}}
 	c.Extra("years_in_grid", len(years))
 
 	for ci, cfg := range configs {
